@@ -205,6 +205,43 @@ def h_increment_glue(client, on_stream):
     return h
 
 
+def h_reset_step(client):
+    """resetting a stream that holds received but unacknowledged DATA credits nothing: those
+    bytes are still the application's to acknowledge (acknowledge_received_data works on a
+    closed stream), so crediting them here would count them twice"""
+    def h():
+        with h2h.native():
+            me = _witness(client)
+        A = h2h.Adapter
+        cw, sw = A.conn_wm(me), A.stream_wm(me, 1)
+        cc, cm, cp, cu = _sym_wm('conn', cw)
+        sc, sm, sp, su = _sym_wm('s1', sw)
+        assume_z(s_le(su, cu))
+        out = models.Out(me)
+        me.reset_stream(1)
+        note('reset')
+        fr = out.frames()
+        check(len(fr) == 1 and isinstance(fr[0], hf.RstStreamFrame), 'reset-emits-other-frames',
+              [h2h.frame_sig(f) for f in fr])
+        check(s_and(cw.current_window_size == cc, cw._bytes_processed == cp,
+                    cw.max_window_size == cm), 'reset-credits-connection-window',
+              (cw.current_window_size, cw._bytes_processed))
+        # ... and the later acknowledgement of those bytes is credited exactly once
+        k = sym_int('ack', 0, 2 ** 33, default=40000)
+        assume_z(s_le(k, cu))
+        out2 = models.Out(me)
+        me.acknowledge_received_data(k, 1)
+        ci = 0
+        for f in out2.frames():
+            check(isinstance(f, hf.WindowUpdateFrame) and f.stream_id == 0,
+                  'ack-unexpected-frame', type(f).__name__)
+            if isinstance(f, hf.WindowUpdateFrame):
+                ci = ci + f.window_increment
+        check(s_le(ci, cp + k), 'increment-exceeds-acknowledged', (ci, k))
+        _inv(cw, cu - k, 'conn')
+    return h
+
+
 def h_ack_gone_stream(client):
     """acknowledging data of a stream that is closed: the connection window still follows
     the rules"""
@@ -396,6 +433,8 @@ def shards(tier, seed):
                          expect=['acked']))
         out.append(Shard('acknowledge_closed_stream/%s' % r, h_ack_gone_stream(client),
                          expect=['acked']))
+        out.append(Shard('reset_then_acknowledge/%s' % r, h_reset_step(client),
+                         expect=['reset']))
         out.append(Shard('recv_data/%s' % r, h_data(client), expect=['received', 'overrun']))
         out.append(Shard('data_on_reset_stream/%s' % r, h_data_closed(client, 'reset'),
                          expect=['absorbed', 'overrun']))
